@@ -33,8 +33,9 @@ CHECKS = {
             'global_vars values, absent optional input, set iteration order) the storage key of every task is the '
             'same for every parameter value (unsat per path); two recorded findings are confirmed by replay.', '7/C02'),
     'C01': ('bounded symbolic execution of real chains over a model file system: symbolic operation histories (choice variables) and symbolic parameter values flowing through construction, run, storage under symbolic file names and loading; value terms compared by cvc5/z3',
-            'H1: for 4-6 adversarial configuration pairs on one store, every history of 3 (thorough 4) operations '
-            '(build, request, force, failing run, restart) returns, for each request, the value of the requesting '
+            'H1: for 3-6 adversarial configuration pairs on one store (9-task pipeline: files, directory, in-memory, lazily '
+            'generated, 12-array list, inputs read by position), every history of 3 (thorough 4) operations '
+            '(build, request, force, failing run / failing generator item, restart) returns, for each request, the value of the requesting '
             'chain\'s own configuration. H2-H4: for all parameter / context values (unbounded strings and integers) a '
             'second configuration never receives a value computed for other values, also across namespace mountings '
             'and cross-namespace wirings (unsat per path); the quote collision is a recorded finding.', '7/C01'),
@@ -45,14 +46,17 @@ CHECKS = {
             'Exhaustive within those bounds; by induction on the store invariant longer histories are covered for '
             'the family.', '7/C04'),
     'C05': ('branch-driven symbolic exploration of Task.data and the Data classes over a model file system with the fault (kind, crash tick, torn prefix) as solver-tracked bounded integers; violations replayed on the real file system by killing a child process at the same operation',
-            'For 8 data classes x first/forced computation x every fault kind (run raises early/late/at item m, '
+            'For 9 data classes x first/forced computation x every fault kind (run raises early/late/at item m, with a '
+            'retry on the same object, '
             'mistyped or unserialisable value, process death before every file operation with 3 torn-prefix kinds): '
             'a later chain finds either no result and recomputes, or the complete value; failed directory tasks are '
-            'set aside, resumable ones keep their work directory. Exhaustive within the model.', '7/C05'),
+            'set aside, resumable ones keep their work directory; thorough: a second process death during recovery. '
+            'Exhaustive within the model; violations are replayed on the real file system.', '7/C05'),
     'C07': ('branch-driven symbolic exploration of Chain.force / Task.force / Task.data over a model file system with pre-state, forced set, flags, failure and later requests as solver-tracked bounded integers',
             'All DAGs on 2-3 tasks (4: sample), every pre-state, every non-empty forced set, all flag combinations, a '
             'failing forced run, a second force and later requests on the same or a fresh chain: forced flags, deleted '
-            'results, run counts, values and the replaced stored result match the reference closure.', '7/C07'),
+            'results, run counts, values and the replaced stored result match the reference closure; in name mode '
+            'delete_data leaves the results of similarly named configs alone.', '7/C07'),
     'C13': ('bounded symbolic execution of MultiChain._prepare with symbolic parameter values and a symbolic-key registry; object identity vs. equality of reference keys decided by cvc5/z3; request/force histories by symbolic choice',
             'For 2-3 configs of three pipelines with unbounded symbolic values: corresponding tasks are one object '
             'exactly when their computations cannot differ (two unsat queries per pair and path), member keys equal '
@@ -97,7 +101,7 @@ CHECKS = {
             'the model; for JSON / numpy (incl. object dtype) / DataFrame values every kind of truncation is never '
             'returned but recomputed.', '7/C14'),
     'C15': ('exhaustive exploration of all interleavings of generator forms of the real cache methods (regenerated from cache.py) under a scheduler with symbolic choices, incl. what a reader sees of a file being written',
-            'For 2 (thorough 3) concurrent callers, each get / get_or_compute / forced, from 4 pre-states, for the '
+            'For 2 (thorough: also 3, JSON cache) concurrent callers, each get / get_or_compute / forced, from 4 pre-states, for the '
             'JSON and the pickle cache: on every schedule each call returns a completely computed value (or '
             'NO_VALUE), none fails because of another, the entry is complete at quiescence, a late caller does not '
             'recompute, no deadlock. Lock = model mutex; no real threads.', '7/C15'),
